@@ -9,6 +9,8 @@
 //	Effects_gen.v  per function: package variables read / written, heap writes
 //	               through parameters, call edges with the argument flow (C17, C18)
 //	Wrappers_gen.v thin wrappers as compositions of the functions they call (C16, C20)
+//	Sites_gen.v    inventory of potentially panicking operations (C15)
+//	Pure_gen.v     cast and escapeChars translated statement by statement, and the constant table (C14, C05)
 //
 // The translator fails closed: a construct outside its fragment in a function it
 // must translate makes it exit non-zero and name the construct.
@@ -94,7 +96,7 @@ func main() {
 	flag.Parse()
 	what := flag.Args()
 	if len(what) == 0 {
-		what = []string{"setters", "effects", "wrappers", "sites"}
+		what = []string{"setters", "effects", "wrappers", "sites", "pure"}
 	}
 	if *out == "" {
 		fail("-out required")
@@ -131,6 +133,8 @@ func main() {
 			writeFile(*out, "Wrappers_gen.v", genWrappers(core, subs))
 		case "sites":
 			writeFile(*out, "Sites_gen.v", genSites(core))
+		case "pure":
+			writeFile(*out, "Pure_gen.v", genPure(core))
 		default:
 			fail("unknown output %q", w)
 		}
